@@ -14,10 +14,20 @@ import (
 )
 
 // emit builds the SMT-LIB text of an obligation.
-func (fe *FE) emit(ob *Obligation) string {
+func (fe *FE) emit(ob *Obligation) string { return fe.emitOpts(ob, false) }
+
+func (fe *FE) emitOpts(ob *Obligation, noQuant bool) string {
 	var sb strings.Builder
 	sb.WriteString("(set-option :produce-models true)\n(set-logic ALL)\n")
-	sb.WriteString(smtPreludeCore)
+	if noQuant {
+		for _, ln := range strings.Split(smtPreludeCore, "\n") {
+			if !strings.Contains(ln, "(forall ") {
+				sb.WriteString(ln + "\n")
+			}
+		}
+	} else {
+		sb.WriteString(smtPreludeCore)
+	}
 	body := new(strings.Builder)
 	for _, n := range fe.gorder {
 		body.WriteString(fe.gdecls[n] + "\n")
@@ -71,7 +81,15 @@ func (fe *FE) emit(ob *Obligation) string {
 			fmt.Fprintf(&sb, "(assert (= (kindName %d) %s))\n", k, fe.strLits[nm])
 		}
 	}
-	sb.WriteString(fe.V.smtPrelude)
+	if noQuant {
+		for _, ln := range strings.Split(fe.V.smtPrelude, "\n") {
+			if !strings.Contains(ln, "(forall ") {
+				sb.WriteString(ln + "\n")
+			}
+		}
+	} else {
+		sb.WriteString(fe.V.smtPrelude)
+	}
 	sb.WriteString(bs)
 	sb.WriteString("(check-sat)\n(get-model)\n")
 	return sb.String()
@@ -211,6 +229,24 @@ func solveAll(fes []*FE, outDir string, timeout, workers int, second bool) {
 					j.ob.Model = r.out
 				} else if r.res != "unsat" {
 					j.ob.Detail = truncate(r.out, 400)
+					if !j.ob.Smoke {
+						// candidate counterexample: drop quantified facts (an over-approximation of the context);
+						// the model is only a candidate and must be confirmed by replay on the real code
+						ob2 := *j.ob
+						ob2.Facts = nil
+						for _, f := range j.ob.Facts {
+							if !strings.Contains(f, "(forall ") && !strings.Contains(f, "(exists ") {
+								ob2.Facts = append(ob2.Facts, f)
+							}
+						}
+						text2 := j.fe.emitOpts(&ob2, true)
+						file2 := strings.TrimSuffix(file, ".smt2") + ".qf.smt2"
+						os.WriteFile(file2, []byte(text2), 0o644)
+						r2 := race(file2, 3, "z3-new")
+						if r2.res == "sat" {
+							j.ob.Model = "; CANDIDATE model (quantified facts dropped)\n" + r2.out
+						}
+					}
 				}
 				if second && r.res == "unsat" {
 					// cross-check with a solver of the other family
